@@ -102,10 +102,12 @@ Section Machine.
 
   (* the step function as a relation, one constructor per kind of outcome *)
   Inductive stepR (s : stt) : label -> stt -> Prop :=
-  | SR_start : ph s = PDialed ->
+  | SR_start : ph s = PDialed -> dialer_refuses p a = false ->
       stepR s LStart (mkState PApiSent (ESend (MReq K_ApiVersions 0) :: tr s))
+  | SR_refused : ph s = PDialed -> dialer_refuses p a = true ->
+      stepR s LDialRefused (mkState PRefused (ERefused :: tr s))
   | SR_fail r : pre (ph s) -> stepR s (LBroker r) (failst s r)
-  | SR_hs pl : ph s = PApiSent -> (hs_version p a <? 0) = false ->
+  | SR_hs pl : ph s = PApiSent -> (hs_version p a <? 0) = false -> transport_refuses p a = false ->
       stepR s (LBroker (ROk pl))
         (mkState (PHsSent (hs_version p a))
            (ESend (MReq K_SaslHandshake (hs_version p a)) :: ERecv (ROk pl) :: tr s))
@@ -141,10 +143,14 @@ Section Machine.
   Lemma step_stepR : forall s l s', stp s l = Some s' -> stepR s l s'.
   Proof.
     intros s l s'. unfold step. intros H.
-    destruct (ph s) eqn:E; destruct l as [|r| |k ver|]; try discriminate H.
-    - injection H as <-. apply SR_start; exact E.
+    destruct (ph s) eqn:E; destruct l as [| |r| |k ver|]; try discriminate H.
+    - destruct (dialer_refuses p a) eqn:D; [discriminate H|]. injection H as <-. apply SR_start; assumption.
+    - destruct (dialer_refuses p a) eqn:D; [|discriminate H]. injection H as <-. apply SR_refused; assumption.
     - destruct r as [pl|c| | |]; try discriminate H.
-      + cbv zeta in H. destruct (hs_version p a <? 0) eqn:V; injection H as <-.
+      + cbv zeta in H. destruct (hs_version p a <? 0) eqn:V; destruct (transport_refuses p a) eqn:T;
+          cbn [orb] in H; injection H as <-.
+        * apply SR_fail; rewrite E; exact I.
+        * apply SR_fail; rewrite E; exact I.
         * apply SR_fail; rewrite E; exact I.
         * apply SR_hs; assumption.
       + destruct (c =? 0); [discriminate H|]. injection H as <-. apply SR_fail; rewrite E; exact I.
@@ -234,12 +240,12 @@ Section Machine.
     intros s s' r R H F.
     assert (D : pre (ph s) /\ s' = failst s r).
     { apply step_stepR in H. remember (LBroker r) as l eqn:L. unfold failing in F.
-      destruct H as [E | r0 P | pl E V | pl v ms out E M
+      destruct H as [E D0 | E D0 | r0 P | pl E V T | pl v ms out E M
                     | r0 ch f i ms out ms' resp E D N | r0 ch f i ms out E D N
                     | E | k v E G | E];
         try discriminate L; injection L as <-; cbv beta iota in F.
       - auto.
-      - rewrite E in F. apply Z.ltb_ge in V. lia.
+      - rewrite E in F. destruct F as [F|F]; [apply Z.ltb_ge in V; lia | congruence].
       - rewrite E in F. congruence.
       - subst r0. cbv beta iota in F. rewrite E in F. congruence.
       - subst r0. cbv beta iota in F. rewrite E in F. congruence. }
@@ -312,7 +318,9 @@ Section Run.
       match goal with
       | |- context [match Sasl.step _ _ _ _ _ ?s0 ?l with _ => _ end] =>
           destruct (Sasl.step mstate mech_start mech_next p a s0 l) eqn:St
-      end; try exact R; apply IH; eapply reach_step; eauto.
+      end; try exact R; try (apply IH; eapply reach_step; eauto).
+    destruct (Sasl.step mstate mech_start mech_next p a s LDialRefused) eqn:St2; [|exact R].
+    eapply reach_step; eauto.
   Qed.
 
   Lemma first_use_reachable : forall (s : stt) k v,
@@ -361,6 +369,7 @@ Section Run.
   Qed.
 
   Lemma exchange_complete : forall n,
+    port_is_number (dial_addr a) = true ->
     0 <= hs_version p a ->
     accepted_or_out (drv (3 + n) None 0 init (Some srv_init)) =
     match mech_start with
@@ -368,9 +377,12 @@ Section Run.
     | Some (ms, out) => crn n ms (Some srv_init) out
     end.
   Proof.
-    intros n H. apply Z.ltb_ge in H.
+    intros n PN H. apply Z.ltb_ge in H.
+    assert (DR : dialer_refuses p a = false) by (unfold dialer_refuses; rewrite PN; destruct p; reflexivity).
+    assert (TR : transport_refuses p a = false) by (unfold transport_refuses; rewrite PN; destruct p; reflexivity).
     change (3 + n)%nat with (S (S (S n))). unfold init.
-    cbn [drive ph tr step pick]. rewrite H. cbn [drive ph tr step pick].
+    cbn [drive ph tr step pick]. rewrite DR. cbn [drive ph tr step pick]. rewrite H, TR.
+    cbn [orb drive ph tr step pick].
     destruct mech_start as [[ms out]|] eqn:M; rewrite <- M.
     - eapply drive_corun. reflexivity.
     - rewrite drive_stuck; [reflexivity|cbn; tauto].
